@@ -99,7 +99,7 @@ func (f *Frame) callStatic(x *ssa.Call, fn *ssa.Function, args []SV, bindings []
 	if con != nil && !con.Inline {
 		return f.applyContract(x.Pos(), fn, con, args, bindings, pc, st, x.Type())
 	}
-	if len(fn.Blocks) > 0 {
+	if len(fn.Blocks) > 0 && vc.eng.inModule(fn) {
 		if con != nil && con.Inline || fn.Synthetic != "" || vc.eng.autoInline(fn) {
 			if f.depth >= maxInlineDepth {
 				vc.unsupported(x.Pos(), "inline depth exceeded at %s", fn)
